@@ -96,15 +96,16 @@ Rest(p, s) == SubSeq(s, Len(p) + 1, Len(s))
 
 (* the regex_rewrite menu (pattern, substitution) with its hand-written meaning; the driver cross-checks the
    meaning against Go's regexp on every path of the universe ("rx" events) *)
-RxMenu == {"none", "R1", "R2", "R3", "R4", "R5"}
-RxPattern(r) == CASE r = "R1" -> "[x]" [] r = "R2" -> "^/a/" [] r = "R3" -> "zz" [] r = "R4" -> "^/a/(.*)$" [] r = "R5" -> "x" [] OTHER -> ""
-RxSubst(r)   == CASE r = "R1" -> "yz" [] r = "R2" -> "/c/" [] r = "R3" -> "q" [] r = "R4" -> "/d/$1/e" [] r = "R5" -> "yz" [] OTHER -> ""
+RxMenu == {"none", "R1", "R2", "R3", "R4", "R5", "R6"}
+RxPattern(r) == CASE r = "R1" -> "[x]" [] r = "R2" -> "^/a/" [] r = "R3" -> "zz" [] r = "R4" -> "^/a/(.*)$" [] r = "R5" -> "x" [] r = "R6" -> "^/" [] OTHER -> ""
+RxSubst(r)   == CASE r = "R1" -> "yz" [] r = "R2" -> "/c/" [] r = "R3" -> "q" [] r = "R4" -> "/d/$1/e" [] r = "R5" -> "yz" [] r = "R6" -> "/c/" [] OTHER -> ""
 RECURSIVE ReplX(_)
 ReplX(s) == IF s = <<>> THEN <<>> ELSE (IF Head(s) = "x" THEN <<"y", "z">> ELSE <<Head(s)>>) \o ReplX(Tail(s))
 RegexApply(r, s) ==
   CASE r \in {"R1", "R5"} -> ReplX(s)
     [] r = "R2" -> IF IsPrefix(PrefixA, s) THEN <<"/", "c", "/">> \o Rest(PrefixA, s) ELSE s
     [] r = "R4" -> IF IsPrefix(PrefixA, s) THEN <<"/", "d", "/">> \o Rest(PrefixA, s) \o <<"/", "e">> ELSE s
+    [] r = "R6" -> IF s # <<>> /\ Head(s) = "/" THEN <<"/", "c", "/">> \o Tail(s) ELSE s     \* its output matches again
     [] OTHER -> s
 
 PrMenu == {<<>>, <<"/", "b", "/">>, <<"/">>}
@@ -116,8 +117,11 @@ ReqPath(c) == IF c.ci THEN [i \in DOMAIN c.path |-> Up(c.path[i])] ELSE c.path
 MatchedLen(c) == IF c.rule = "prefix" THEN Len(PrefixA) ELSE Len(c.path)
 
 (* Sem: prefix_rewrite replaces what the rule matched; regex_rewrite applies only when no prefix_rewrite is set *)
-SemPath(c) == IF c.pr # <<>> THEN c.pr \o SubSeq(ReqPath(c), MatchedLen(c) + 1, Len(c.path))
-              ELSE RegexApply(c.rr, ReqPath(c))
+SemRewrite(m, pr, rr, path) == IF pr # <<>> THEN pr \o SubSeq(path, m + 1, Len(path)) ELSE RegexApply(rr, path)
+SemPath(c) == SemRewrite(MatchedLen(c), c.pr, c.rr, ReqPath(c))
+(* rewrites given to the routes of the retry runs (RouteActionRetry): rule prefix "/", so a prefix_rewrite output
+   still matches the rule, and regex patterns that do / do not match their own output *)
+RetryRewrites == { [pr |-> <<>>, rr |-> "none"], [pr |-> <<"/", "b", "/">>, rr |-> "none"], [pr |-> <<>>, rr |-> "R6"], [pr |-> <<>>, rr |-> "R5"] }
 (* Impl: base_rule.go finalizePathHeader compares the request path with the configured matcher *)
 Configured(c) == IF c.rule = "prefix" THEN PrefixA ELSE c.path
 SameFold(p, s) == Len(p) <= Len(s) /\ \A i \in DOMAIN p : Up(p[i]) = Up(s[i])
@@ -245,6 +249,6 @@ TryBelowGlobal == Family = "tmo" => LET r == ImplTimeout(c) IN r.g > 0 /\ (r.t =
 (* one CASE line per case, consumed by the Go driver (run with -workers 1) *)
 EmitCase == /\ PrintT(<<"CASE", ToJson([fam |-> Family, c |-> c])>>)
             /\ (Family = "path" /\ c = CHOOSE x \in Cases : TRUE) =>
-                 PrintT(<<"CASE", ToJson([fam |-> "rxmenu", paths |-> Paths,
+                 PrintT(<<"CASE", ToJson([fam |-> "rxmenu", paths |-> Paths, retryrw |-> RetryRewrites, retrypath |-> PathA,
                                           rx |-> { [rr |-> r, pattern |-> RxPattern(r), subst |-> RxSubst(r)] : r \in RxMenu \ {"none"} }])>>)
 ====
